@@ -171,6 +171,22 @@ class _RetToBreak(ast.NodeTransformer):
 def _conv_loop_tail(stmts: List[ast.stmt], repl, mode) -> List[ast.stmt]:
     """Helpers of the form `<straight-line statements>; <loop>` whose returns are all directly inside the final
     loop: `return E` becomes `<use E>; break`.  Sound because nothing follows the loop in the helper."""
+    # search-loop form: `<loop with returns>; return C` — the loop gets an `else` clause that produces C
+    if len(stmts) >= 2 and isinstance(stmts[-1], ast.Return) and isinstance(stmts[-2], (ast.While, ast.For)):
+        loop = stmts[-2]
+        if loop.orelse or any(_contains_return(st) for st in stmts[:-2]) or not _returns_at_loop_depth(loop) or _has_break_at_depth1(loop):
+            raise NotInlinable("not search-loop form")
+        tr = _RetToBreak(repl)
+        new_body = []
+        for st in loop.body:
+            r = tr.visit(st)
+            new_body.extend(r if isinstance(r, list) else [r])
+        orelse = repl(stmts[-1]) or []
+        if isinstance(loop, ast.While):
+            new_loop = ast.While(test=loop.test, body=new_body, orelse=orelse)
+        else:
+            new_loop = ast.For(target=loop.target, iter=loop.iter, body=new_body, orelse=orelse, type_comment=None)
+        return list(stmts[:-2]) + [new_loop]
     if not stmts or not isinstance(stmts[-1], (ast.While, ast.For)):
         raise NotInlinable("not loop-tail form")
     loop = stmts[-1]
@@ -252,10 +268,25 @@ def _body_wo_doc(fn: ast.FunctionDef) -> List[ast.stmt]:
 
 
 class Inliner:
-    def __init__(self, module_name: str, tree: ast.Module, known: Set[str]):
+    def __init__(self, module_name: str, tree: ast.Module, known: Set[str], foreign: Optional[Dict[str, tuple]] = None):
         self.mod = module_name
         self.tree = tree
         self.known = known
+        # unknown helpers defined in *other* modules/classes, by their (package-wide unique) simple name:
+        # name -> (fq, FunctionDef, is_method, module name)
+        self.foreign = foreign or {}
+        self.module_names: Set[str] = set(dir(__import__("builtins")))
+        for st in ast.walk(tree):
+            if isinstance(st, (ast.Import, ast.ImportFrom)):
+                for a in st.names:
+                    self.module_names.add((a.asname or a.name).split(".")[0])
+        for st in tree.body:
+            if isinstance(st, (ast.FunctionDef, ast.ClassDef)):
+                self.module_names.add(st.name)
+            elif isinstance(st, (ast.Assign, ast.AnnAssign)):
+                for n in ast.walk(st):
+                    if isinstance(n, ast.Name) and isinstance(n.ctx, ast.Store):
+                        self.module_names.add(n.id)
         self.inlined: Set[str] = set()   # fq names of helpers that were inlined somewhere
         self.count = 0
         self._k = 0
@@ -305,7 +336,27 @@ class Inliner:
                         fq = "%s.%s.%s" % (self.mod, cls.name, m.name)
                         if self.unknown(fq):
                             return m, fq, f.value
+        # a helper that lives in another class / module, identified by its package-wide unique name
+        if isinstance(f, ast.Attribute) and f.attr in self.foreign and _simple(f.value):
+            fq, fn, is_method, mod = self.foreign[f.attr]
+            if is_method and fn is not caller and self._portable(fn, mod):
+                return fn, fq, f.value
+        if isinstance(f, ast.Name) and f.id in self.foreign and f.id in self.module_names:
+            fq, fn, is_method, mod = self.foreign[f.id]
+            if not is_method and mod != self.mod and self._portable(fn, mod):
+                return fn, fq, None
         return None
+
+    def _portable(self, fn: ast.FunctionDef, mod: str) -> bool:
+        """A body can be moved into this module iff its free names mean the same here (builtins or names
+        this module binds as well)."""
+        if mod == self.mod:
+            return True
+        local = _assigned(fn) | {a.arg for a in fn.args.posonlyargs + fn.args.args + fn.args.kwonlyargs}
+        for n in _walk_no_defs(fn):
+            if isinstance(n, ast.Name) and isinstance(n.ctx, ast.Load) and n.id not in local and n.id not in self.module_names:
+                return False
+        return True
 
     def _inlinable(self, fn: ast.FunctionDef) -> bool:
         decos = {ast.unparse(d) for d in fn.decorator_list}
@@ -501,10 +552,53 @@ class Inliner:
                 setattr(st, field, [T().visit(v) if isinstance(v, ast.AST) else v for v in value])
 
 
-def preprocess(module_name: str, tree: ast.Module, known: Optional[Set[str]]) -> Tuple[Set[str], int]:
+def _library_attrs() -> Set[str]:
+    """Method names of the library types used in the code base: a call `x.<name>(...)` with such a name may be a
+    library call, so an unknown helper of the same name is never bound by name alone."""
+    import collections
+    import io
+    import pathlib as _pl
+    import sqlite3
+    import subprocess
+    import argparse
+    out: Set[str] = set()
+    for ty in (list, dict, set, frozenset, str, bytes, bytearray, tuple, int, float, object, type, BaseException, _pl.Path, _pl.PurePath, collections.deque,
+               collections.OrderedDict, sqlite3.Connection, sqlite3.Cursor, subprocess.Popen, subprocess.CompletedProcess, io.BufferedReader, io.TextIOWrapper,
+               io.BytesIO, argparse.ArgumentParser, argparse.Namespace):
+        out |= set(dir(ty))
+    return out
+
+
+_LIBRARY_ATTRS = _library_attrs()
+
+
+def collect_foreign(trees: Dict[str, ast.Module], known: Optional[Set[str]]) -> Dict[str, tuple]:
+    """Unknown helpers by simple name, kept only when the name is unique in the whole package (known
+    functions included), so that `x.name(...)` can be bound without type information."""
+    if known is None:
+        return {}
+    known_simple = {k.rsplit(".", 1)[-1] for k in known}
+    cand: Dict[str, List[tuple]] = {}
+    for mod, tree in trees.items():
+        for st in tree.body:
+            if isinstance(st, ast.FunctionDef):
+                fq = "%s.%s" % (mod, st.name)
+                if fq not in known:
+                    cand.setdefault(st.name, []).append((fq, st, False, mod))
+            elif isinstance(st, ast.ClassDef):
+                for m in st.body:
+                    if isinstance(m, ast.FunctionDef):
+                        fq = "%s.%s.%s" % (mod, st.name, m.name)
+                        decos = {ast.unparse(d) for d in m.decorator_list}
+                        if fq not in known:
+                            cand.setdefault(m.name, []).append((fq, m, "staticmethod" not in decos and "classmethod" not in decos, mod))
+    return {n: v[0] for n, v in cand.items() if len(v) == 1 and n not in known_simple and not n.startswith("__") and n not in _LIBRARY_ATTRS}
+
+
+def preprocess(module_name: str, tree: ast.Module, known: Optional[Set[str]], foreign: Optional[Dict[str, tuple]] = None) -> Tuple[Set[str], int]:
     if known is None:
         return set(), 0
-    inl = Inliner(module_name, tree, known)
+    inl = Inliner(module_name, tree, known, foreign)
     inl.run()
     if inl.count:
         ast.fix_missing_locations(tree)
